@@ -143,6 +143,10 @@ func genHistory(r *rand.Rand, base *lib.Tree, k int, seeds [][]byte, upperNames 
 		if upperNames && r.Intn(4) == 0 {
 			op.MIME = fmt.Sprintf("application/X-Verif-UP-%d", extCounter)
 		}
+		if r.Intn(12) == 0 {
+			// the name of a built-in format is used for a new format somewhere else in the tree
+			op.MIME = []string{"text/xml", "application/json", "application/zip", "text/plain", "application/octet-stream", "video/quicktime", "image/png"}[r.Intn(7)]
+		}
 		if upperNames && len(ops) > 0 && r.Intn(6) == 0 {
 			// a name registered before in this history is used again (same or another
 			// parent, another detector / extension): still a NEW format in front of its siblings
